@@ -1,9 +1,11 @@
 import Woodpile.Driver.Util
 import Woodpile.Driver.ReadN
+import Woodpile.Driver.VTime
 
 open Woodpile.Driver
 
 def families : List (String × Family) := [
+  ("vtime", VTimeFam.family),
   ("readn", ReadNFam.family)
 ]
 
